@@ -14,8 +14,9 @@
   Core Lean only (compiled into oracle_C20).  The builder itself is Model/C20Builder.lean.
 
   Not modelled: the errors `Workflow.compile` returns without storing them (a second
-  whole-output input of one node, overlapping mapped paths: C15), static values, chains as
-  nodes.  A sub-graph that is compiled again by a later Compile of its parent is taken to answer
+  whole-output input of one node, overlapping mapped paths: C15), static values.  A Chain is a
+  declaration like any other: the calls `Chain.addNode` makes on its graph as `ops`, the END edge
+  of `addEndIfNeeded` as `once` (Oracle/C20Decl.lean `chainCalls`).  A sub-graph that is compiled again by a later Compile of its parent is taken to answer
   as it did the first time (`compile_retry_same` for the builder; a Workflow child replays its
   branches – tested by correspondence only).
 -/
